@@ -3,6 +3,7 @@ package main
 import (
 	"go/token"
 	"go/types"
+	"strings"
 
 	"golang.org/x/tools/go/ssa"
 )
@@ -390,6 +391,7 @@ func runC16(p *P, r *R) {
 		}
 		r.ob("R16.4", "Listener.checkHotRestart: the restart is declared done only when every acknowledgement arrived", p.pos(chk.Pos()), ok, true, "")
 	}
+	c16SessionNames(p, r)
 	c16SwapDiscipline(p, r)
 	// R16.5 the hot-restart handlers are nil-safe on sessions without manager / listener (shared with C13 R13.4)
 	borrow(p, r, "C13", runC13, map[string]string{"R13.4": "R16.5"}, func(o Ob) bool { return constructHas(o, "Session.manager", "Session.listener") })
@@ -588,4 +590,75 @@ func c16SwapDiscipline(p *P, r *R) {
 		}
 	}
 	r.count("R16.7", "sites recording a pool as handed over", nRec, 1)
+}
+
+// c16SessionNames (R16.9): the successor session of a hot restart is created while the old session is still alive,
+// under the same process id and session id, so its shared-memory names must differ: the epoch / random suffix is
+// appended to the path prefix, and the queue path is derived from the prefix. That only works if the queue path is
+// derived from the *final* prefix: after the load of the prefix that feeds Config.QueuePath no further store to
+// Config.ShareMemoryPathPrefix may follow. (With file mappings a queue name equal to the live session's makes every
+// successor fail with "queue was existed" and unlinks the live queue on the error path.)
+func c16SessionNames(p *P, r *R) {
+	n := 0
+	for _, f := range p.fnList {
+		for _, si := range findInstrs(f, mStoreWord("Config.QueuePath")) {
+			st := si.(*ssa.Store)
+			var prefixLoads []ssa.Instruction
+			var walk func(v ssa.Value, d int)
+			walk = func(v ssa.Value, d int) {
+				if d < 0 || v == nil {
+					return
+				}
+				if isLoadOf(v, "Config.ShareMemoryPathPrefix") {
+					prefixLoads = append(prefixLoads, v.(ssa.Instruction))
+					return
+				}
+				if b, ok := v.(*ssa.BinOp); ok {
+					walk(b.X, d-1)
+					walk(b.Y, d-1)
+				}
+			}
+			walk(st.Val, 6)
+			if len(prefixLoads) == 0 {
+				continue
+			}
+			n++
+			ok := true
+			for _, ld := range prefixLoads {
+				for _, ps := range findInstrs(f, mStoreWord("Config.ShareMemoryPathPrefix")) {
+					if p.reaches(ld, ps, nil) {
+						ok = false
+					}
+				}
+			}
+			r.ob("R16.9", p.fname(f)+": the queue path is derived from the final (epoch-qualified) path prefix", p.ipos(si), ok, true,
+				"a prefix that is still extended afterwards (epoch / random suffix) leaves the successor's queue name equal to the live session's")
+			// and the prefix does get qualified by the epoch the session is created for
+			qualified := false
+			for _, ps := range findInstrs(f, mStoreWord("Config.ShareMemoryPathPrefix")) {
+				var has func(v ssa.Value, d int) bool
+				has = func(v ssa.Value, d int) bool {
+					if d < 0 || v == nil {
+						return false
+					}
+					switch x := v.(type) {
+					case *ssa.BinOp:
+						return has(x.X, d-1) || has(x.Y, d-1)
+					case *ssa.Call:
+						if p.calleeName(&x.Call) == "strconv.FormatUint" {
+							if prm, okp := stripConv(x.Call.Args[0]).(*ssa.Parameter); okp && strings.Contains(strings.ToLower(prm.Name()), "epoch") {
+								return true
+							}
+						}
+					}
+					return false
+				}
+				if has(ps.(*ssa.Store).Val, 8) {
+					qualified = true
+				}
+			}
+			r.ob("R16.9", p.fname(f)+": the path prefix of a successor session carries the epoch it is created for", p.ipos(si), qualified, true, "")
+		}
+	}
+	r.count("R16.9", "queue paths derived from the share-memory prefix", n, 1)
 }
